@@ -71,6 +71,10 @@ def gen_model(rng, fam, n, depth, kinds):
     if depth <= 0:
         return gen_leaf_model(rng, fam, n, kinds)
     op = rng.choice(["add", "add", "sub", "sub", "mul", "mul", "mul", "pow", "neg", "pos", "div", "cast"])
+    if op in ("add", "sub", "mul") and rng.random() < 0.08:
+        # both operands are the very same object:  a op a,  a op= a
+        return {"t": op, "a": gen_model(rng, fam, n, depth - 1, kinds), "alias": True,
+                "inplace": rng.random() < 0.6}
     if op in ("add", "sub", "mul"):
         a = gen_model(rng, fam, n, depth - 1, kinds)
         b = gen_any(rng, fam, n, depth - 1, kinds)
@@ -105,6 +109,8 @@ def tree_kinds(t, acc):
     return acc
 
 def tree_nontrivial(t):
+    if t.get("alias"):
+        return True
     if t["t"] in ("add", "sub", "mul"):
         def nterms(u):
             return len(u["p"]) if u["t"] in ("raw", "mdl") else 1
@@ -151,7 +157,7 @@ def ev(t, L, style, log):
         return r
     if k in ("add", "sub", "mul"):
         a = ev(t["a"], L, style, log)
-        b = ev(t["b"], L, style, log)
+        b = a if t.get("alias") else ev(t["b"], L, style, log)
         sa, sb = snapshot(a), snapshot(b)
         if t.get("inplace"):
             a0 = a
@@ -230,12 +236,23 @@ def den(t, x):
         return tot
     if k in ("cast", "pos"):
         return den(t["a"], x)
+    if k in ("add", "sub", "mul") and t.get("alias"):
+        va = den(t["a"], x)
+        return va + va if k == "add" else va - va if k == "sub" else va * va
     if k == "add": return den(t["a"], x) + den(t["b"], x)
     if k == "sub": return den(t["a"], x) - den(t["b"], x)
     if k == "mul": return den(t["a"], x) * den(t["b"], x)
     if k == "pow": return den(t["a"], x) ** t["e"]
     if k == "neg": return -den(t["a"], x)
-    if k == "div": return den(t["a"], x) / Fraction(t["c"])
+    if k == "div":
+        c = Fraction(t["c"])
+        va = den(t["a"], x)
+        if c == 0:
+            # `m / 0` on an empty model loops over no key and returns the empty model (value 0)
+            if va == 0:
+                return Fraction(0)
+            raise ZeroDivisionError
+        return va / c
     raise ValueError(k)
 
 def oracle(case, canon, obj, log):
@@ -245,7 +262,13 @@ def oracle(case, canon, obj, log):
     if "err" in canon:
         kinds = tree_kinds(case["tree"], set())
         if canon["err"] == "KeyError" and kinds & DEG2:
-            return None
+            # the property lets a degree-2 type raise only when some produced key has more than two labels
+            try:
+                ref_eval(case["tree"], case["fam"] == "spin")
+            except Overflow:
+                return None
+            return ("KeyError although no leaf key and no product of two stored keys squashes to more than two "
+                    "labels anywhere in the tree (the value has degree <= 2)")
         if canon["err"] == "ValueError" and has_bad_pow(case["tree"]):
             return None
         if canon["err"] == "ZeroDivisionError" and has_zero_div(case["tree"]):
@@ -261,7 +284,10 @@ def oracle(case, canon, obj, log):
     spin = case["fam"] == "spin"
     for bits in itertools.product((0, 1), repeat=n):
         xs = {i: Fraction((1 - 2 * b) if spin else b) for i, b in enumerate(bits)}
-        want = den(case["tree"], xs)
+        try:
+            want = den(case["tree"], xs)
+        except ZeroDivisionError:
+            return "division of a non-zero model by zero returned a result instead of raising"
         sol = {L.lab(i): (1 - 2 * b) if spin else b for i, b in enumerate(bits)}
         got = Fraction(obj.value(sol)) if obj else Fraction(0)
         if got != want:
@@ -269,6 +295,87 @@ def oracle(case, canon, obj, log):
     if canon["type"] in DEG2 and any(len(k) > 2 for k, _ in canon["terms"]):
         return "degree-2 type holds a key with more than two labels"
     return None
+
+class Overflow(Exception):
+    pass
+
+def ref_squash(key, spin, deg2):
+    if spin:
+        k = tuple(sorted(i for i in set(key) if key.count(i) % 2))
+    else:
+        k = tuple(sorted(set(key)))
+    if deg2 and len(k) > 2:
+        raise Overflow()
+    return k
+
+def ref_eval(t, spin):
+    """independent reference evaluation (plain dict-of-Fractions polynomial arithmetic written from the property):
+    returns (kind or None, {key: coef}) and raises Overflow where a degree-2 type would have to hold a key with more
+    than two labels.  Raw dicts keep raw keys."""
+    k = t["t"]
+    def into(kind, items):
+        d = {}
+        for key, v in items:
+            kk = ref_squash(tuple(key), spin, kind in DEG2) if kind else tuple(key)
+            d[kk] = d.get(kk, Fraction(0)) + v
+            if d[kk] == 0:
+                del d[kk]
+        return d
+    if k == "num":
+        return ("num", Fraction(t["c"]))
+    if k == "raw":
+        return (None, [(tuple(key), Fraction(v)) for key, v in t["p"]])
+    if k == "mdl":
+        return (t["k"], into(t["k"], [(key, Fraction(v)) for key, v in t["p"]]))
+    if k == "cast":
+        kind, d = ref_eval(t["a"], spin)
+        items = d if kind is None else list(d.items())
+        return (t["k"], into(t["k"], items))
+    if k in ("add", "sub", "mul"):
+        A = ref_eval(t["a"], spin)
+        B = A if t.get("alias") else ref_eval(t["b"], spin)
+        if A[0] in (None, "num") and B[0] not in (None, "num"):
+            # reflected: the model operand decides the type
+            if k == "sub":
+                negB = (B[0], {kk: -v for kk, v in B[1].items()})
+                return ref_bin("add", negB, A, spin, into)
+            return ref_bin(k, B, A, spin, into)
+        return ref_bin(k, A, B, spin, into)
+    A = ref_eval(t["a"], spin)
+    kind, d = A
+    if k == "pow":
+        if t["e"] <= 0:
+            raise ValueError
+        cur = A
+        for _ in range(t["e"] - 1):
+            cur = ref_bin("mul", cur, A, spin, into)
+        return cur
+    if k == "neg":
+        return (kind, {kk: -v for kk, v in d.items()})
+    if k == "pos":
+        return A
+    if k == "div":
+        c = Fraction(t["c"])
+        return (kind, {kk: v / c for kk, v in d.items()})
+    raise ValueError(k)
+
+def ref_bin(op, A, B, spin, into):
+    kind, d = A
+    if kind in (None, "num"):
+        raise TypeError
+    if B[0] == "num":
+        bitems = [((), B[1])]
+    elif B[0] is None:
+        bitems = B[1]
+    else:
+        bitems = list(B[1].items())
+    if op == "add":
+        return (kind, into(kind, list(d.items()) + bitems))
+    if op == "sub":
+        return (kind, into(kind, list(d.items()) + [(kk, -v) for kk, v in bitems]))
+    if B[0] == "num":
+        return (kind, into(kind, [(kk, v * B[1]) for kk, v in d.items()]))
+    return (kind, into(kind, [(tuple(k1) + tuple(k2), v1 * v2) for k1, v1 in d.items() for k2, v2 in bitems]))
 
 def has_bad_pow(t):
     if t["t"] == "pow" and t["e"] <= 0:
@@ -361,9 +468,26 @@ def expr_case(rng, depth=None):
     uses_matrix = bool(tree_kinds(tree, set()) & MATRIX)
     labels = "int" if uses_matrix else rng.choice(Labels.STYLES)
     num = rng.choice(["int", "frac", "float"])
-    if num == "float" and not all_dyadic(tree):
+    if num == "float" and (not all_dyadic(tree) or not float_exact(tree, fam == "spin")):
         num = "frac"
     return {"family": "expr", "fam": fam, "n": n, "tree": tree, "labels": labels, "num": num}
+
+def float_exact(t, spin):
+    """IEEE double arithmetic is exact on this tree: every coefficient of every subtree's exact value (computed
+    with Fractions) is a dyadic rational of at most 40 significant bits"""
+    def ok(v):
+        v = Fraction(v)
+        return v.denominator & (v.denominator - 1) == 0 and v.numerator.bit_length() + v.denominator.bit_length() <= 40
+    def walk(u):
+        try:
+            kind, d = ref_eval(u, spin)
+        except Exception:
+            return True      # raises on both sides alike; nothing numeric to compare
+        vals = [d] if kind == "num" else [v for _, v in d] if kind is None else list(d.values())
+        if not all(ok(v) for v in vals):
+            return False
+        return all(walk(u[c]) for c in ("a", "b") if c in u and isinstance(u[c], dict))
+    return walk(t)
 
 def all_dyadic(t):
     def dy(s):
@@ -400,10 +524,12 @@ def triple_cases():
 
 def strip(t):
     """the tree as the driver sees it (harness-only fields removed)"""
-    u = {k: v for k, v in t.items() if k != "inplace"}
+    u = {k: v for k, v in t.items() if k not in ("inplace", "alias")}
     for c in ("a", "b"):
         if c in u and isinstance(u[c], dict):
             u[c] = strip(u[c])
+    if t.get("alias"):
+        u["b"] = u["a"]
     return u
 
 def process(ctx, cases):
